@@ -34,3 +34,6 @@ def run(ctx):
     R.r05_3_pairs(ctx, 'R06.8')
     from . import helpers_rules as H
     H.r14_1_scalar_table(ctx, 'R06.9')
+    from . import round3 as R3
+    R3.r06_10_dumper_resolver_untouched(ctx)
+    R3.r06_11_string_like(ctx)
